@@ -6,26 +6,40 @@ From Coq Require Import List NArith Bool Arith.
 From UV Require Import Model.Node Model.Sig Model.Exec Model.Lex Proofs.Lex Model.Limits Proofs.Limits.
 Import ListNotations.
 
-(** (a) validate_size_impl: an accepted size is the TRUE product of the dimensions (the f64
-    arithmetic of the guard is exact wherever it accepts), it fits in a u32 and the byte size is
-    within the limit [L] (any limit below 2^53 bytes = 8 PiB) *)
-Theorem C09_size_guard_sound : forall es dims L n, (L < 2 ^ 53)%N ->
+(** (a) validate_size_impl (current code, commit 1cc30f2): an accepted size is the TRUE product of
+    the dimensions (the f64 arithmetic of the guard is exact wherever it accepts a non-empty
+    shape), it fits in a u32, the byte size is within the limit [L] (any limit below 2^53 bytes),
+    and the product of the NON-ZERO dimensions fits in a usize (relative-error bound of the f64
+    product; rank below 2^50) *)
+Theorem C09_size_guard_sound : forall es dims L n, (L < 2 ^ 53)%N -> (N.of_nat (length dims) < 2 ^ 50)%N ->
   validate_size es dims L = Accept n ->
-  n = prod dims /\ (n <= u32max)%N /\ (n * es <= L)%N.
+  n = prod dims /\ (n <= u32max)%N /\ (n * es <= L)%N /\ (prod (nz dims) <= usize_max)%N.
 Proof. exact size_guard_sound. Qed.
+
+(** every trailing product of an accepted shape (row length, cell size, ...) fits in a usize: the
+    law that the code before 1cc30f2 violated (C09_size_guard_refuted_pre) *)
+Theorem C09_size_guard_suffixes_fit : forall es dims L n k, (L < 2 ^ 53)%N -> (N.of_nat (length dims) < 2 ^ 50)%N ->
+  validate_size es dims L = Accept n -> (prod (skipn k dims) <= usize_max)%N.
+Proof. exact size_guard_suffixes_fit. Qed.
 
 (** ... and nothing that fits is refused *)
 Theorem C09_size_guard_complete : forall es dims L, (L < 2 ^ 53)%N ->
-  (prod dims <= u32max)%N -> (prod dims * es <= L)%N ->
+  Forall (fun d => d <> 0%N) dims -> (prod dims <= u32max)%N -> (prod dims * es <= L)%N ->
   validate_size es dims L = Accept (prod dims).
 Proof. exact size_guard_complete. Qed.
+Theorem C09_size_guard_complete_zero : forall es dims L, Exists (fun d => d = 0%N) dims ->
+  (prod (nz dims) < 2 ^ 53)%N -> validate_size es dims L = Accept 0%N.
+Proof. exact size_guard_complete_zero. Qed.
 
-(** the guard's blind spot: one zero dimension makes it accept any other dimensions, so an
-    accepted shape can have a row length that does not fit in a usize *)
-Theorem C09_size_guard_refuted :
+(** RECORD about the model of the code BEFORE 1cc30f2 ([validate_size_pre]): one zero dimension
+    made the guard accept any other dimensions, so an accepted shape could have a row length that
+    does not fit in a usize; the current model refuses that witness *)
+Theorem C09_size_guard_refuted_pre :
   exists es dims L, (L < 2 ^ 53)%N /\ Forall (fun d => (d <= usize_max)%N) dims /\
-    validate_size es dims L = Accept 0%N /\ (usize_max < prod (tl dims))%N.
-Proof. exact size_guard_refuted. Qed.
+    validate_size_pre es dims L = Accept 0%N /\ (usize_max < prod (tl dims))%N.
+Proof. exact size_guard_refuted_pre. Qed.
+Theorem C09_size_guard_witness_refused : validate_size 1 [0; 10000000000; 10000000000]%N (2 ^ 32) = Reject.
+Proof. exact size_guard_witness_refused. Qed.
 
 (** (b) along every execution (every oracle of data-dependent choices, every fuel) the call stack
     stays within the recursion limit + 1 + the frames a single function body stacks up by itself *)
@@ -67,6 +81,8 @@ Proof. exact lexer_asserts_hold. Qed.
 Example C09_nonvacuous :
   validate_size 8 [1024; 1024]%N 8388608 = Accept 1048576 /\
   validate_size 8 [1024; 1025]%N 8388608 = Reject /\
+  validate_size 8 [0; 4294967296; 65536]%N 8388608 = Accept 0 /\
+  validate_size 8 [0; 4294967296; 4294967296]%N 8388608 = Reject /\
   cexec 5 rec_direct 40 rec_main 1 (rec_oracle 2) = (COk, 7, []) /\
   fst (fst (cexec 5 rec_direct 40 rec_main 1 (rec_oracle 3))) = CErr /\
   arr_verdict 26 = true /\ arr_verdict 27 = false.
@@ -74,7 +90,10 @@ Proof. vm_compute. repeat split. Qed.
 
 Print Assumptions C09_size_guard_sound.
 Print Assumptions C09_size_guard_complete.
-Print Assumptions C09_size_guard_refuted.
+Print Assumptions C09_size_guard_suffixes_fit.
+Print Assumptions C09_size_guard_complete_zero.
+Print Assumptions C09_size_guard_refuted_pre.
+Print Assumptions C09_size_guard_witness_refused.
 Print Assumptions C09_call_depth_bounded.
 Print Assumptions C09_sigcheck_cutoff.
 Print Assumptions C09_sigcheck_depth_bounded.
